@@ -269,7 +269,7 @@ Variable vparse : text -> option rawversion.
 Variable specpat : vop -> text -> option (vop * list N).
 Variable specver : vop -> text -> option (vop * list N).
 Variables pv pfv : N.
-Variable url_oracle : bool -> text -> option text.
+Variable url_oracle : ukind -> text -> option text.
 Variable getenv : text -> option text.
 Variable project_root : text.
 Variables verbatim ext : bool.
@@ -538,9 +538,9 @@ Theorem parse_url_T_verbatim (u d : text) (g : option text) :
 Proof. intros V. unfold parse_url_T. rewrite V. apply verbatim_given. Qed.
 
 Theorem parse_url_T_plain (u d : text) (g : option text) :
-  verbatim = false -> purl_T u = Some (d, g) -> g = None /\ url_oracle false u = Some d.
+  verbatim = false -> purl_T u = Some (d, g) -> g = None /\ url_oracle UParse u = Some d.
 Proof.
-  intros V. unfold parse_url_T. rewrite V. destruct (url_oracle false u) as [d'|]; [|discriminate]. intros [= <- <-]. auto.
+  intros V. unfold parse_url_T. rewrite V. destruct (url_oracle UParse u) as [d'|]; [|discriminate]. intros [= <- <-]. auto.
 Qed.
 
 (** * 1+2 lifted to [parse_url] *)
@@ -577,7 +577,7 @@ Corollary parse_url_text (c : cursor) (d : text) (g : option text) (c' : cursor)
   exists u rest, c_rest (eat_ws c) = u ++ rest /\ u <> [] /\ url_end (c_rest (eat_ws c)) u rest /\
     stop_state (c_pos (eat_ws c)) None u rest c' l /\ purl_T u = Some (d, g) /\
     (verbatim = true -> g = Some u /\ dispatch (xpand u) = Some d) /\
-    (verbatim = false -> g = None /\ url_oracle false u = Some d).
+    (verbatim = false -> g = None /\ url_oracle UParse u = Some d).
 Proof.
   intros H. destruct (parse_url_ok c d g c' l H) as (u & E & Ne & P).
   destruct (url_scan_full _ _ _ _ _ _ E) as (rest & Er & Hmin & Hng & Hstop).
